@@ -1135,6 +1135,8 @@ class sptensor:
          [1. 1.]]
         """
         # Case 1: Argument is a scalar or tensor
+        if isinstance(other, ttb.tensor) and self.shape != other.shape:
+            assert False, "Logical Or requires tensors of the same size"
         if isinstance(other, (float, int, ttb.tensor)):
             return self.full().logical_or(other)
 
@@ -1209,6 +1211,8 @@ class sptensor:
          [1. 0.]]
         """
         # Case 1: Argument is a scalar or dense tensor
+        if isinstance(other, ttb.tensor) and self.shape != other.shape:
+            assert False, "Logical XOR requires tensors of the same size"
         if isinstance(other, (float, int, ttb.tensor)):
             return self.full().logical_xor(other)
 
@@ -2891,6 +2895,8 @@ class sptensor:
         # a dense result, even if the scalar is zero.
 
         # Case 1: Second argument is a scalar or a dense tensor
+        if isinstance(other, ttb.tensor) and self.shape != other.shape:
+            assert False, "Must be two tensors of the same shape"
         if isinstance(other, (float, int, ttb.tensor)):
             return self.full() - other
 
